@@ -68,9 +68,25 @@ fn run_scenario(out: &mut Out, scn: &Value, n: usize) {
     let erows: Vec<Value> = es.iter().enumerate().map(|(i, e)| json!([i, e[0], e[1], e[2]])).collect();
     let vrows: Vec<Value> = coords.iter().enumerate().map(|(i, c)| json!([i, c[0], c[1]])).collect();
     out.event(json!({"ev": "Files", "erows": erows, "vrows": vrows, "nv": nv, "gzip": gzip, "explicit": explicit}));
-    let g = Graph::from_files(&epath, &vpath, if explicit { Some(es.len()) } else { None }, if explicit { Some(nv) } else { None }, Some(false));
+    // every other scenario goes through the application's graph builder with a [graph] configuration object (explicit
+    // counts given as n_edges / n_vertices, together or one of them only); the others call the loader directly
+    let via_builder = n % 2 == 0;
+    let g = if via_builder {
+        let mut cfg = json!({"edge_list_input_file": epath.to_str().unwrap(), "vertex_list_input_file": vpath.to_str().unwrap(), "verbose": false});
+        if explicit {
+            if n % 3 != 1 {
+                cfg["n_edges"] = json!(es.len());
+            }
+            if n % 3 != 2 {
+                cfg["n_vertices"] = json!(nv);
+            }
+        }
+        routee_compass::app::compass::config::graph_builder::DefaultGraphBuilder::build(&cfg).map_err(|e| e.to_string())
+    } else {
+        Graph::from_files(&epath, &vpath, if explicit { Some(es.len()) } else { None }, if explicit { Some(nv) } else { None }, Some(false)).map_err(|e| e.to_string())
+    };
     match g {
-        Err(e) => out.event(json!({"ev": "LoadError", "msg": e.to_string()})),
+        Err(e) => out.event(json!({"ev": "LoadError", "msg": e})),
         Ok(g) => {
             let edges: Vec<Value> = g
                 .edge_ids()
